@@ -202,6 +202,7 @@ ypr_text(struct lys_ypr_ctx *pctx, const char *name, const char *text, enum lys_
 {
     const char *nl, *t;
     char quot;
+    int cont_indent;
 
     if (flags & LYS_YPR_TEXT_SINGLEQUOTED) {
         quot = '\'';
@@ -216,27 +217,39 @@ ypr_text(struct lys_ypr_ctx *pctx, const char *name, const char *text, enum lys_
     /* statement name and quote */
     if (flags & LYS_YPR_TEXT_SINGLELINE) {
         ly_print_(pctx->out, "%*s%s %c", INDENT, name, quot);
+
+        /* the following lines start in the column after the opening quote (RFC 7950 sec. 6.1.3),
+         * otherwise the leading whitespaces of those lines would be stripped when parsed */
+        cont_indent = (DO_FORMAT ? LEVEL * 2 : 0) + strlen(name) + 2;
     } else {
         ly_print_(pctx->out, "%*s%s\n", INDENT, name);
         LEVEL++;
 
         ly_print_(pctx->out, "%*s%c", INDENT, quot);
+        cont_indent = (DO_FORMAT ? LEVEL * 2 : 0) + 1;
     }
 
     /* text with newlines */
     t = text;
     while ((nl = strchr(t, '\n'))) {
         if (flags & LYS_YPR_TEXT_SINGLEQUOTED) {
+            /* everything in single quotes is the string, no indentation possible */
             ypr_text_squote_line(pctx, t, nl - t);
+            ly_print_(pctx->out, "\n");
         } else {
             ypr_encode(pctx->out, t, nl - t);
+            if ((nl != t) && (nl[-1] == ' ')) {
+                /* whitespaces before a line break are stripped when parsed, keep the line break encoded */
+                ly_print_(pctx->out, "\\n");
+            } else {
+                ly_print_(pctx->out, "\n");
+                if (nl[1] != '\n') {
+                    ly_print_(pctx->out, "%*s", cont_indent, "");
+                }
+            }
         }
-        ly_print_(pctx->out, "\n");
 
         t = nl + 1;
-        if (*t != '\n') {
-            ly_print_(pctx->out, "%*s ", INDENT);
-        }
     }
 
     /* finish text and the last quote */
